@@ -25,4 +25,6 @@ while [ $# -gt 0 ]; do
 done
 ev="$here/evidence/$prop.json"
 [ -n "${YAE_EVIDENCE:-}" ] && ev="$YAE_EVIDENCE"
+# a violations file left by an earlier run on a changed tree does not describe this run
+rm -f "${ev%.json}.violations.json"
 exec "$bin" -repo "$repo" -property "$prop" -tier "$tier" -evidence "$ev" -known "$here/known_findings.json" "${extra[@]}"
